@@ -21,6 +21,8 @@ type Res struct {
 	APIVer string `json:"apiVer,omitempty"`
 	// NS is an explicit metadata.namespace in the template ("" = none: the release namespace "default" applies).
 	NS string `json:"ns,omitempty"`
+	// ManagedBy: the template sets the label app.kubernetes.io/managed-by itself, to this value ("" = it does not).
+	ManagedBy string `json:"managedBy,omitempty"`
 }
 
 // Namespace the object lives in.
@@ -85,6 +87,9 @@ func (r Res) Object() map[string]interface{} {
 	if r.Policy != "" {
 		md["annotations"] = map[string]interface{}{"helm.sh/resource-policy": r.Policy}
 	}
+	if r.ManagedBy != "" {
+		md["labels"] = map[string]interface{}{"app.kubernetes.io/managed-by": r.ManagedBy}
+	}
 	o := map[string]interface{}{"apiVersion": ki.APIVersion, "kind": r.Kind, "metadata": md}
 	if r.APIVer != "" {
 		o["apiVersion"] = r.APIVer
@@ -97,7 +102,12 @@ func (r Res) Object() map[string]interface{} {
 		o["type"] = "Opaque"
 		o["stringData"] = map[string]interface{}{"v": v}
 	case "ServiceAccount":
-		md["labels"] = map[string]interface{}{"variant": "v" + v}
+		lb, _ := md["labels"].(map[string]interface{})
+		if lb == nil {
+			lb = map[string]interface{}{}
+		}
+		lb["variant"] = "v" + v
+		md["labels"] = lb
 	case "Service":
 		o["spec"] = map[string]interface{}{
 			"selector": map[string]interface{}{"app": r.Name},
@@ -140,6 +150,9 @@ type HookSpec struct {
 	HasWeight bool     `json:"hasWeight,omitempty"`
 	Policies  []string `json:"policies,omitempty"` // delete policies; empty = annotation absent (default before-hook-creation)
 	Variant   int      `json:"variant,omitempty"`
+	// Spaced: the delete-policy list is written with blanks around the commas
+	// (" before-hook-creation, hook-succeeded "), which Helm's annotation parsing accepts
+	Spaced bool `json:"spaced,omitempty"`
 }
 
 // Path of the hook object.
@@ -155,6 +168,9 @@ func (h HookSpec) Object() map[string]interface{} {
 	}
 	if len(h.Policies) > 0 {
 		an["helm.sh/hook-delete-policy"] = strings.Join(h.Policies, ",")
+		if h.Spaced {
+			an["helm.sh/hook-delete-policy"] = " " + strings.Join(h.Policies, ", ") + " "
+		}
 	}
 	md["annotations"] = an
 	return o
